@@ -186,7 +186,7 @@ CHECKS["C10"] = {
     "rule": "a case = one schedule run 6 times. Non-trivial = at a release point >= 2 request queues are non-empty and one of them is at capacity (10); "
             "distinct = distinct (mode, bucketed occupancy vector)",
     "assumptions": ["remote upgrade master is a stub RoundTripper (ok / error / blocks forever)"],
-    "required_classes": {"all": ["release-with->=2-queues-nonempty-and-one-full", "mode:local", "mode:remote-stalled", "mode:", "hooks:with-unstartable-entries"]},
+    "required_classes": {"all": ["op:web-request-abandoned-by-its-client", "release-with->=2-queues-nonempty-and-one-full", "mode:local", "mode:remote-stalled", "mode:", "hooks:with-unstartable-entries"]},
     "jobs": [
         J("nowedge", AGENT, "TestC10NoWedge", {"shards": 8, "checks": 40}, {"shards": 16, "checks": 1500}, toolchain="go126"),
     ],
@@ -311,10 +311,11 @@ CHECKS["C03"] = {
     "rule": "a case = (name, operation[, frontend]). Non-trivial = an invalid name whose lexical join with the base directory lands on an existing credential file inside or outside the base; "
             "distinct = distinct (name class, operation, name)",
     "assumptions": [],
-    "required_classes": {"all": ["traced-invalid-name", "name:resolves-to-existing-credential-file", "nameclass:traversal", "nameclass:alias", "nameclass:absolute", "nameclass:control", "invalid-named-file:only-admin=true"]},
+    "required_classes": {"all": ["missing-base:removed", "missing-base:parent-missing", "traced-invalid-name", "name:resolves-to-existing-credential-file", "nameclass:traversal", "nameclass:alias", "nameclass:absolute", "nameclass:control", "invalid-named-file:only-admin=true"]},
     "jobs": [
         J("names", VSTORE, "TestC03Names", {"shards": 8, "checks": 300}, {"shards": 16, "checks": 6000}),
         J("files", VSTORE, "TestC03InvalidNamedFiles", {"shards": 2, "checks": 200}, {"shards": 8, "checks": 3000}),
+        J("missingbase", VSTORE, "TestC03MissingBase", {"shards": 2, "checks": 150}, {"shards": 8, "checks": 2000}),
         J("frontends", AGENT, "TestC03Frontends", {"shards": 4, "checks": 80}, {"shards": 16, "checks": 2000}, toolchain="go126"),
         J("confinement", VTRACE, "TestC03Confinement", {"shards": 4, "checks": 30}, {"shards": 16, "checks": 800}),
     ],
@@ -531,3 +532,10 @@ CHECKS["C09"]["required_classes"]["all"] += ["failed-fsync-reported-as-failure",
 
 CHECKS["C07"]["jobs"].append(J("restart", AGENT, "TestC07AcrossRestart", {"shards": 1}, toolchain="go126", rapid=False))
 CHECKS["C07"]["required_classes"]["all"] += ["restart:GODEBUG=randautoseed=0"]
+
+CHECKS["C08"]["required_classes"]["all"] += ["work-area-had-leftovers"]
+CHECKS["C02"]["required_classes"]["all"] += ["kind:line-prefix"]
+
+CHECKS["C10"]["jobs"].append(J("fdexhaustion", VBB, "TestC10FdExhaustion", {"shards": 1, "timeout": 300}, rapid=False))
+CHECKS["C10"]["prebuild"] = BIN_PREBUILD
+CHECKS["C10"]["required_classes"]["all"] += ["fd-exhaustion-spike"]
